@@ -890,7 +890,16 @@ def _em_conversion(orig_units, conv_data, to_units=None, unit_system=None):
         # we don't know the to_units, so we get it directly from the
         # conv_data
         to_units = Unit(conv_unit.expr, registry=orig_units.registry)
-    new_units = Unit(new_expr, registry=orig_units.registry)
+    # take the value from the canonical unit object rather than looking its
+    # expression up again: it may be the unit being converted, which keeps the
+    # value it was created with when its registry is edited later
+    new_units = Unit(
+        new_expr,
+        base_value=scale * canonical_unit.base_value,
+        base_offset=canonical_unit.base_offset,
+        dimensions=canonical_unit.dimensions,
+        registry=orig_units.registry,
+    )
     conv = new_units.get_conversion_factor(to_units)
     return to_units, conv
 
